@@ -82,7 +82,7 @@ def gen_c01_random(rnd, tier):
         for k in c:
             ls += [[2 * k, -1], [2 * k, 0], [2 * k, 1]]
         fs = [rnd.randint(-1, tot + 1) for _ in range(20)] + [0, tot]
-        out.append({'m': 'curve', 'op': 'stations', 'dim': dim, 'tolU': 0, 'fc': fc, 'sc': rnd.choice((0, -10, 4, -3, 7)),
+        out.append({'m': 'curve', 'op': 'stations', 'dim': dim, 'tolU': 0, 'fc': fc, 'sc': rnd.choice((0, -10, 4, -3, 7, -20, 12)),
                     'pts': pts, 'ls': ls, 'fs': fs})
     return out
 
@@ -111,7 +111,7 @@ def gen_c05_random(rnd, tier):
                 k = max(1, L2 // 2)
         if mode == 'spacing' and dim == 3 and k >= L2:
             continue
-        out.append({'m': 'curve', 'op': 'resample', 'dim': dim, 'pts': pts, 'fc': fc, 'sc': rnd.choice((0, -10, 4, -3, 7)),
+        out.append({'m': 'curve', 'op': 'resample', 'dim': dim, 'pts': pts, 'fc': fc, 'sc': rnd.choice((0, -10, 4, -3, 7, -20, 12)),
                     'tolU': 0, 'mode': mode, 'n': k})
     return out
 
